@@ -70,7 +70,7 @@ def cases(tier, seed):
     out.append({"id": "numexpr-shim", "kind": "shim"})
     # detectors with more points than fit one block of the wrapper's
     # integrand (36x36, 40x30, 33x31 points)
-    for shp in ((36, 36), (40, 30), (33, 31)):
+    for shp in ((36, 36), (40, 30), (33, 31), (25, 41)):
         out.append({"id": "lens-large-detector:%dx%d" % shp,
                     "kind": "largedet", "shape": list(shp)})
     # beyond the large-rho cut-off of the analytic theory (3.9 * quad_npts)
